@@ -19,6 +19,8 @@ Structural clauses of the data-transfer machinery, decided from the source (no O
                root scale factors are produced, stored, unpacked and applied in the same order/direction;
                the additive unit offset gets an adder array
 * scaling-flags the flags that switch unit conversion on (group flag, scaled-subsystem set, transfer flag)
+* scale-idx    array ref/ref0 of the source go through the input's src_indices on every scalar/array pattern
+* slice-norm   slice bounds that need the source size are resolved before the flat index array is built
 * indexer      flat / non-flat dispatch of Indexer.indexed_val, negative index normalisation
 * index-arrays shape-aware index arrays are arange(size).reshape(src_shape)[own index]; tuple indices get
                per-dimension shapes; slices are normalised against the indexed dimension
@@ -57,8 +59,11 @@ describe('C04',
          'and direction of the (factor, offset) tuple from units.py through Group._compute_root_scale_factors to '
          'DefaultVector._set_scaling (compared as polynomials), adder allocation for unit offsets; the flags that '
          'enable all of this; flat/non-flat dispatch and negative-index normalisation in utils/indexer.py; that '
-         'connect()/promotes() arguments reach the graph edge.  Does not decide numpy integer arithmetic, MPI '
-         'transfers (petsc_transfer.py), array ref/ref0 scaling (outside the C04 quantifier) or the unit table.',
+         'connect()/promotes() arguments reach the graph edge; by abstract execution over (scalar_ref, scalar_ref0) '
+         'that every array ref/ref0 of the source is taken through the src_indices of the input; by evaluation '
+         'over the sign patterns of (start, stop, step) that no slice bound needing the source size reaches '
+         'np.arange(*slc.indices(maxsize)) unresolved.  Does not decide numpy integer arithmetic, MPI transfers '
+         '(petsc_transfer.py) or the unit table.',
          ['numpy indexing semantics', 'single process (DefaultTransfer); PETSc transfers are not analysed',
           'dict _conn_abs_in2out maps absolute input name -> absolute source name',
           "names of the repository's tables fix the input/output side: _var_sizes['input'], offsets['output'], "
@@ -313,6 +318,20 @@ def src_index(repo, out):
     for c in _calls_named(cons.node, 'get_src_index_array'):
         st = astx.stmt_of(c)
         consumer_flattens = isinstance(st, ast.Assign) and _is_flat_term(csym.term(st.value))
+        if not consumer_flattens and isinstance(st, ast.Assign) and isinstance(st.targets[0], ast.Name):
+            # `X = np.atleast_1d(X).ravel()` right after the call, at most guarded by `X is not None`
+            nm = st.targets[0].id
+            for s2 in astx.walk_stmts(cons.node.body):
+                if isinstance(s2, ast.Assign) and isinstance(s2.targets[0], ast.Name) and s2.targets[0].id == nm \
+                        and s2 is not st and astx.mentions(s2.value, nm):
+                    t2 = csym.term(s2.value)
+                    gd = [a for a in astx.ancestors(s2) if isinstance(a, ast.If) and a in astx.ancestors(s2)
+                          and a not in list(astx.ancestors(st))]
+                    plain = all(isinstance(a.test, ast.Compare) and isinstance(a.test.ops[0], ast.IsNot) and
+                                astx.path(a.test.left) == nm and astx.in_body(s2, a, 'body') for a in gd)
+                    if _is_flat_term(t2) and plain and contains(t2, lambda x: _k(x, 'attr') and
+                                                                x[2] == 'get_src_index_array'):
+                        consumer_flattens = True
     if consumer_flattens is None:
         raise AnalysisError(f'{cons.ident}: get_src_index_array is no longer called here')
 
@@ -1865,6 +1884,392 @@ def _branch_of(st, s, FA):
     return unit, lin
 
 
+# =========================================================================== C04.scale-idx
+class _Undecided(Exception):
+    pass
+
+
+def _bool_eval(test, env_of):
+    """Evaluate an AST test made of not/and/or over atoms; env_of(expr) -> bool or raises _Undecided."""
+    if isinstance(test, ast.BoolOp):
+        vals = [_bool_eval(v, env_of) for v in test.values]
+        return all(vals) if isinstance(test.op, ast.And) else any(vals)
+    if isinstance(test, ast.UnaryOp) and isinstance(test.op, ast.Not):
+        return not _bool_eval(test.operand, env_of)
+    return env_of(test)
+
+
+@rule('C04.scale-idx', floor=2)
+def scale_idx(repo, out):
+    """Array ref/ref0 of the source go through the input's src_indices on every (scalar_ref, scalar_ref0) pattern."""
+    fn = repo.func(GROUP, 'Group._compute_root_scale_factors')
+    sym = Sym(fn)
+    g = sym.g
+    conv = [c for c in _calls_named(fn.node, 'idx_list_to_index_array')]
+    if len(conv) != 1:
+        raise AnalysisError(f'{fn.ident}: idx_list_to_index_array call not found')
+    c = conv[0]
+    cst = astx.stmt_of(c)
+    at = sym.at(c)
+    lt = sym.term(c.args[0], at) if c.args else None
+    ok_list = False
+    for a in alts(lt):
+        if _k(a, 'sub') and _const(a[2], 'src_inds_list') and _k(a[1], 'loopvar') and a[1][1] == 1 and \
+                contains(a[1][3], lambda x: _k(x, 'sub') and _const(x[2], 'input')):
+            ok_list = True
+        elif _k(a, 'attr') and a[2] == 'src_inds_list' and contains(a, lambda x: x == ('const', 'i')):
+            ok_list = True
+    if ok_list:
+        out.ok(fn, cst, "index array built from the input's own src_inds_list")
+    else:
+        out.bad(fn, cst, f'index array is built from `{show(lt)}`, not from the src_inds_list of the input whose '
+                'scale factors are computed', key='scale-idx-list')
+    if not (isinstance(cst, ast.Assign) and isinstance(cst.targets[0], ast.Name)):
+        out.unsure(fn, cst, 'index array is not stored in a local')
+        return
+    idx_name = cst.targets[0].id
+    block = cst._parent
+    if not isinstance(block, ast.If) or cst not in block.body:
+        out.unsure(fn, cst, 'index array is not computed inside the `not (scalar_ref and scalar_ref0)` block')
+        return
+
+    def from_conv(t):
+        return all(contains(a, lambda x: _k(x, 'call') and attr_path(x[1]) == 'idx_list_to_index_array')
+                   for a in alts(t))
+
+    # which locals are ref / ref0 of the connected source, and which flags say "scalar"
+    def src_role(t):
+        for a in alts(t):
+            while _k(a, 'sub') and from_conv(a[2]):
+                a = a[1]
+            if _k(a, 'sub') and _k(a[2], 'const') and a[2][1] in ('ref', 'ref0'):
+                base = a[1]
+                src_ok = _k(base, 'sub') and _k(base[2], 'sub') and attr_path(base[2][1]) is not None and \
+                    attr_path(base[2][1]).endswith('_conn_global_abs_in2out')
+                return a[2][1], src_ok
+        return None
+    var_role = {}
+    for st in astx.walk_stmts(block.body):
+        if isinstance(st, ast.Assign) and len(st.targets) == 1 and isinstance(st.targets[0], ast.Name) and \
+                isinstance(st.value, ast.Subscript) and isinstance(st.value.value, ast.Name) and \
+                st.value.value.id == st.targets[0].id:
+            r = src_role(sym.term(st.value.value, g.nodes_of(st)[0]))
+            if r:
+                var_role[st.targets[0].id] = r
+    if sorted(r[0] for r in var_role.values()) != ['ref', 'ref0']:
+        # maybe only one of them is indexed at all
+        if len(var_role) == 1:
+            nm, (what, _) = next(iter(var_role.items()))
+            other = 'ref0' if what == 'ref' else 'ref'
+            out.bad(fn, block, f'only {what} of the source is taken through the src_indices; an array {other} keeps the '
+                    'size and order of the source while the input is indexed', key=f'scale-idx-unindexed:{other}')
+        else:
+            out.unsure(fn, block, 'ref/ref0 locals not recognised')
+        return
+    for nm, (what, src_ok) in var_role.items():
+        if not src_ok:
+            out.bad(fn, block, f'`{nm}` is not the {what} of the connected source '
+                    '(allprocs_meta_out[self._conn_global_abs_in2out[abs_in]])', key=f'scale-idx-source:{what}')
+            return
+    name_of = {what: nm for nm, (what, _) in var_role.items()}
+
+    def flag_of(expr, node):
+        """'ref'/'ref0' if expr is the "<that> is scalar" flag, else None."""
+        t = sym.term(expr, node)
+        if _k(t, 'cmp') and t[1] == 'Eq' and ('const', 0) in t[2:]:
+            other = t[3] if t[2] == ('const', 0) else t[2]
+            if _k(other, 'call') and attr_path(other[1]) in ('np.ndim', 'numpy.ndim') and len(other[2]) == 1:
+                r = src_role(other[2][0])
+                return r[0] if r else None
+        return None
+
+    # ---- abstract execution of the block for every pattern on which it is entered
+    verdicts = []          # (pattern, kind, what, stmt)
+    undecided = None
+    for scal in ((False, False), (False, True), (True, False), (True, True)):
+        env = {'ref': scal[0], 'ref0': scal[1]}
+
+        def env_of(expr, node):
+            f = flag_of(expr, node)
+            if f is None:
+                raise _Undecided(astx.src(expr))
+            return env[f]
+        try:
+            if not _bool_eval(block.test, lambda e: env_of(e, g.nodes_of(block)[0])):
+                continue
+        except _Undecided as u:
+            undecided = f'guard atom `{u}` is not a scalar-ness flag of ref/ref0'
+            break
+        state = {w: ('scalar' if env[w] else 'array') for w in ('ref', 'ref0')}
+        where = {}
+
+        def run(stmts):
+            for st in stmts:
+                if isinstance(st, ast.If):
+                    if all(isinstance(b, ast.Raise) for b in st.body) and not st.orelse:
+                        continue                                   # error exits for unsupported set-ups
+                    if astx.mentions(st.test, idx_name) and not any(astx.mentions(st, n) and
+                                                                   any(isinstance(t, ast.Name) and t.id == n
+                                                                       for s2 in astx.walk_stmts(st.body + st.orelse)
+                                                                       for t in astx.assigned_targets(s2))
+                                                                   for n in name_of.values()):
+                        continue                                   # reshaping of the index array itself
+                    v = _bool_eval(st.test, lambda e: env_of(e, g.nodes_of(st)[0]))
+                    run(st.body if v else st.orelse)
+                    continue
+                if isinstance(st, ast.Assign) and len(st.targets) == 1 and isinstance(st.targets[0], ast.Name):
+                    nm = st.targets[0].id
+                    if nm == idx_name:
+                        continue
+                    if nm in var_role:
+                        w = var_role[nm][0]
+                        v = st.value
+                        if isinstance(v, ast.Subscript) and isinstance(v.value, ast.Name) and v.value.id == nm:
+                            it = sym.term(v.slice, g.nodes_of(st)[0])
+                            if not from_conv(it) or it != sym._name(idx_name, g.nodes_of(st)[0], 0):
+                                state[w] = 'other-index'
+                            elif state[w] == 'array':
+                                state[w] = 'indexed'
+                            elif state[w] == 'scalar':
+                                state[w] = 'scalar-indexed'
+                            where[w] = st
+                            continue
+                        if isinstance(v, ast.Call) and astx.callee_attr(v) in ('full', 'broadcast_to', 'full_like'):
+                            shp = v.args[0] if astx.callee_attr(v) == 'full' else (v.args[1] if len(v.args) > 1 else None)
+                            okshape = None
+                            if isinstance(shp, ast.Attribute) and shp.attr == 'shape' and isinstance(shp.value, ast.Name):
+                                if shp.value.id in var_role and shp.value.id != nm:
+                                    okshape = state[var_role[shp.value.id][0]] == 'indexed'
+                                elif shp.value.id == idx_name:
+                                    okshape = True
+                            if okshape is None:
+                                raise _Undecided(f'fill shape `{astx.src(shp)}`')
+                            state[w] = 'filled' if (okshape and state[w] == 'scalar') else \
+                                'filled-unindexed-shape' if state[w] == 'scalar' else 'array-overwritten'
+                            where[w] = st
+                            continue
+                    if any(astx.mentions(st, n) for n in name_of.values()):
+                        raise _Undecided(f'statement `{astx.src(st)}`')
+                    continue
+                if isinstance(st, (ast.Expr, ast.Pass)) and not any(astx.mentions(st, n) for n in name_of.values()):
+                    continue
+                raise _Undecided(f'statement `{astx.src(st)}`')
+        try:
+            run(block.body[block.body.index(cst) + 1:])
+        except _Undecided as u:
+            undecided = str(u)
+            break
+        pat = ', '.join(f"{w} {'scalar' if env[w] else 'array'}" for w in ('ref', 'ref0'))
+        for w in ('ref', 'ref0'):
+            verdicts.append((pat, state[w], w, where.get(w)))
+    if undecided:
+        out.unsure(fn, block, f'cannot evaluate the ref/ref0 block: {undecided}')
+        return
+    bad = [v for v in verdicts if v[1] not in ('indexed', 'scalar', 'filled')]
+    if not verdicts:
+        out.unsure(fn, block, 'the block is never entered')
+        return
+    msgs = {
+        'array': 'is an array but is NOT taken through the src_indices of the input (it keeps the size and order of the '
+                 'source): the scaling applied to the input differs from that of the source elements it receives, so '
+                 'the input silently holds wrong values',
+        'filled-unindexed-shape': 'is scalar and is filled to the shape of the partner BEFORE the partner is indexed '
+                                  '(source size instead of input size): shape mismatch in a1 = ref - ref0',
+        'scalar-indexed': 'is scalar but is subscripted with the index array',
+        'other-index': 'is subscripted with something that is not the index array of the input',
+        'array-overwritten': 'is an array and is overwritten by a constant fill',
+    }
+    seen = set()
+    for pat, kind, w, st in bad:
+        key = {'array': f'scale-idx-unindexed:{w}', 'filled-unindexed-shape': f'scale-fill-shape:{w}'}.get(
+            kind, f'scale-idx-{kind}:{w}')
+        if key in seen:
+            continue
+        seen.add(key)
+        out.bad(fn, st if st is not None else block, f'when {pat}: {w} of the source {msgs[kind]}', key=key)
+    if not bad:
+        npat = len({v[0] for v in verdicts})
+        out.ok(fn, block, f'on all {npat} (scalar_ref, scalar_ref0) patterns every array is indexed by the src_indices '
+               'and a scalar partner is filled to the indexed shape')
+        for w in ('ref', 'ref0'):
+            sts = [v[3] for v in verdicts if v[2] == w and v[1] == 'indexed' and v[3] is not None]
+            if sts:
+                out.ok(fn, sts[0], f'{w}[src_indices] whenever {w} is an array')
+
+
+# =========================================================================== C04.slice-norm
+_ABS = (None, 'neg', 'zero', 'pos')
+
+
+def _abs_cmp(val, op, k):
+    """Truth of `val <op> k` for an abstract int val in {neg, zero, pos} and k == 0."""
+    if val is None:
+        raise _Undecided('comparison with None')
+    if k != 0:
+        raise _Undecided('comparison with a non-zero literal')
+    rep = {'neg': -1, 'zero': 0, 'pos': 1}[val]
+    return {'Lt': rep < 0, 'LtE': rep <= 0, 'Gt': rep > 0, 'GtE': rep >= 0, 'Eq': rep == 0, 'NotEq': rep != 0}[op]
+
+
+_SWAPOP = {'Lt': 'Gt', 'LtE': 'GtE', 'Gt': 'Lt', 'GtE': 'LtE', 'Eq': 'Eq', 'NotEq': 'NotEq'}
+
+
+def _slice_cond(t, pat, extra=None):
+    """Evaluate a condition term over slice fields under pattern {start, stop, step -> abstract value}."""
+    SLC = ('attr', ('param', 'self'), '_slice')
+    if extra is not None:
+        v = extra(t)
+        if v is not None:
+            return v
+    if _k(t, 'bool'):
+        res = None
+        for v in t[2:]:
+            r = _slice_cond(v, pat, extra)
+            if t[1] == 'And' and not r:
+                return False
+            if t[1] == 'Or' and r:
+                return True
+            res = r
+        return bool(res) if t[1] == 'Or' else True
+    if _k(t, 'un') and t[1] == 'Not':
+        return not _slice_cond(t[2], pat, extra)
+    if _k(t, 'cmp'):
+        op, l, r = t[1], t[2], t[3]
+
+        def field(x):
+            return x[2] if _k(x, 'attr') and x[1] == SLC and x[2] in ('start', 'stop', 'step') else None
+        if field(r) and not field(l):
+            l, r, op = r, l, _SWAPOP.get(op, op)
+        f = field(l)
+        if f:
+            if op in ('Is', 'IsNot') and r == ('const', None):
+                return (pat[f] is None) == (op == 'Is')
+            if _k(r, 'const') and isinstance(r[1], int) and op in _SWAPOP:
+                return _abs_cmp(pat[f], op, r[1])
+        if extra is not None:
+            v = extra(t)
+            if v is not None:
+                return v
+    raise _Undecided(show(t))
+
+
+@rule('C04.slice-norm', floor=2)
+def slice_norm(repo, out):
+    """A slice whose bounds reach np.arange(*slc.indices(maxsize)) unresolved must have non-negative explicit bounds."""
+    SELF = ('param', 'self')
+    SLC = ('attr', SELF, '_slice')
+    SRC = ('attr', SELF, '_src_shape')
+    DIM0 = ('sub', SRC, ('const', 0))
+    # ---- producer: which patterns keep the raw slice
+    fn = repo.func(INDEXER, 'SliceIndexer.shaped_instance')
+    sym = Sym(fn)
+    ctors = []
+    for c in _calls_named(fn.node, 'ShapedSliceIndexer'):
+        st = astx.stmt_of(c)
+        a0 = sym.term(c.args[0], sym.at(c)) if c.args else None
+        if a0 == SLC:
+            kind = 'raw'
+        elif _k(a0, 'call') and attr_path(a0[1]) == 'slice' and len(a0[2]) == 1 and _k(a0[2][0], 'star') and \
+                _k(a0[2][0][1], 'call') and a0[2][0][1][1] == ('attr', SLC, 'indices') and a0[2][0][1][2] == (DIM0,):
+            kind = 'resolved'
+        else:
+            out.unsure(fn, st, f'ShapedSliceIndexer argument `{show(a0)}` is neither the raw slice nor '
+                       'slice(*self._slice.indices(self._src_shape[0]))')
+            return
+        conds = []
+        for a in astx.ancestors(st):
+            if isinstance(a, ast.If):
+                conds.append((sym.term(a.test, sym.g.nodes_of(a)[0]), astx.in_body(st, a, 'body')))
+        ctors.append((st, kind, conds))
+    if not ctors:
+        raise AnalysisError(f'{fn.ident}: no ShapedSliceIndexer construction')
+    # ---- consumer: which patterns evaluate np.arange(*slc.indices(sys.maxsize)) on a 1-D source
+    fa = repo.func(INDEXER, 'ShapedSliceIndexer.as_array')
+    sa = Sym(fa)
+    rets = []
+    for st in astx.walk_stmts(fa.node.body):
+        if isinstance(st, ast.Return) and st.value is not None:
+            t = sa.term(st.value, sa.g.nodes_of(st)[0])
+            if _k(t, 'sub') and t[2] == SLC and _k(t[1], 'call') and attr_path(t[1][1]) in ('np.arange', 'numpy.arange') \
+                    and t[1][2] and t[1][2][0] == DIM0:
+                kind = 'exact'
+            elif _k(t, 'call') and attr_path(t[1]) in ('np.arange', 'numpy.arange') and t[2] and _k(t[2][0], 'star') \
+                    and _k(t[2][0][1], 'call') and t[2][0][1][1] == ('attr', SLC, 'indices'):
+                arg = t[2][0][1][2]
+                kind = 'maxsize' if arg and attr_path(arg[0]) == 'sys.maxsize' else 'exact' if arg == (DIM0,) else None
+            else:
+                kind = 'other'
+            conds = []
+            for a in astx.ancestors(st):
+                if isinstance(a, ast.If):
+                    conds.append((sa.term(a.test, sa.g.nodes_of(a)[0]), astx.in_body(st, a, 'body')))
+            rets.append((st, kind, conds))
+
+    def one_dim(t):
+        # len(self._src_shape) == 1 holds in the analysed (flat / 1-D source) case; `flat` argument: default True
+        if _k(t, 'cmp') and t[1] == 'Eq' and {t[2], t[3]} == {('call', ('name', 'len'), (SRC,), ()), ('const', 1)}:
+            return True
+        if t == ('param', 'flat'):
+            return True
+        return None
+    offenders = {'neg': [], 'open': []}
+    npat = 0
+    try:
+        for start in _ABS:
+            for stop in _ABS:
+                for step in ('pos', 'neg'):
+                    pat = dict(start=start, stop=stop, step=step)
+                    npat += 1
+                    sel = [(st, kind) for st, kind, conds in ctors
+                           if all(_slice_cond(t, pat) == pol for t, pol in conds)]
+                    if len(sel) != 1:
+                        out.unsure(fn, fn.node, f'{len(sel)} constructions selected for pattern {pat}')
+                        return
+                    if sel[0][1] == 'resolved':
+                        continue
+                    rsel = [(st, kind) for st, kind, conds in rets
+                            if all(_slice_cond(t, pat, one_dim) == pol for t, pol in conds)]
+                    if len(rsel) != 1 or rsel[0][1] in (None, 'other'):
+                        out.unsure(fa, fa.node, f'as_array result for an unresolved slice with {pat} not recognised')
+                        return
+                    if rsel[0][1] == 'exact':
+                        continue
+                    # unresolved slice evaluated with indices(sys.maxsize): right only for explicit non-negative bounds
+                    # (an open start is 0 for a positive step)
+                    start_ok = start in ('zero', 'pos') or (start is None and step == 'pos')
+                    stop_ok = stop in ('zero', 'pos')
+                    if start_ok and stop_ok:
+                        continue
+                    which = 'neg' if 'neg' in (start, stop) else 'open'
+                    offenders[which].append((pat, sel[0][0]))
+    except _Undecided as u:
+        out.unsure(fn, fn.node, f'normalisation condition not evaluable: {u}')
+        return
+
+    def fmt(p):
+        f = lambda v: {None: 'open', 'neg': '<0', 'zero': '0', 'pos': '>0'}[v]   # noqa: E731
+        return f"[{f(p['start'])}:{f(p['stop'])}:{'+' if p['step'] == 'pos' else '-'}step]"
+    if offenders['neg']:
+        pats, st = [fmt(p) for p, _ in offenders['neg']], offenders['neg'][0][1]
+        encl = [a for a in astx.ancestors(st) if isinstance(a, ast.If)]
+        st = encl[0] if encl else st          # the test that lets the negative bound through
+        out.bad(fn, st, f'a negative slice bound survives into the shaped slice for {len(pats)} sign pattern(s) '
+                f'{pats[:6]}; ShapedSliceIndexer.as_array expands it with slc.indices(sys.maxsize), i.e. counts it from '
+                'the end of a maxsize-long array: the transfer index array is empty/wrong (e.g. om.slicer[-4:5])',
+                key='slice-negative-bound-unresolved')
+    else:
+        out.ok(fn, ctors[0][0], f'every negative start/stop is resolved against src_shape[0] on all {npat} sign patterns '
+               '(or the slice is applied to arange(src_shape[0]) directly)')
+    if offenders['open']:
+        pats, st = [fmt(p) for p, _ in offenders['open']], offenders['open'][0][1]
+        out.bad(fn, st, f'an open slice bound survives unresolved for {len(pats)} sign pattern(s) {pats[:6]} and is '
+                'expanded with slc.indices(sys.maxsize): an open start with a negative step becomes maxsize-1 (an open '
+                'stop with a positive step maxsize): the index array is empty or too big to allocate '
+                '(e.g. om.slicer[:0:-1] as flat src_indices)', key='slice-open-bound-unresolved')
+    else:
+        out.ok(fn, ctors[0][0], 'every open bound that needs the source size is resolved')
+
+
 # =========================================================================== C04.indexer
 @rule('C04.indexer', floor=6)
 def indexer_rule(repo, out):
@@ -2621,17 +3026,17 @@ selftest(
     Mutant('order-untabled-eval-loop', NLBJ, "    def _run_apply(self):\n        \"\"\"\n        Run the apply_nonlinear method on the system.\n        \"\"\"\n        system = self._system()\n",
            "    def _run_apply(self):\n        \"\"\"\n        Run the apply_nonlinear method on the system.\n        \"\"\"\n        system = self._system()\n        for subsys in system._subsystems_myproc:\n            subsys._apply_nonlinear()\n", 'C04.order-who'),
     # ---- src-index
-    Mutant('srcidx-reversed-chain', CONN, "            for inds in src_inds_list:\n                arr = inds.indexed_val(arr)\n            return arr",
-           "            for inds in reversed(src_inds_list):\n                arr = inds.indexed_val(arr)\n            return arr", 'C04.src-index'),
-    Mutant('srcidx-skip-first', CONN, "            for inds in src_inds_list:\n                arr = inds.indexed_val(arr)\n            return arr",
-           "            for inds in src_inds_list[1:]:\n                arr = inds.indexed_val(arr)\n            return arr", 'C04.src-index'),
+    Mutant('srcidx-reversed-chain', CONN, "            for inds in src_inds_list:\n                arr = inds.indexed_val(arr)\n            return np.atleast_1d(arr).ravel()",
+           "            for inds in reversed(src_inds_list):\n                arr = inds.indexed_val(arr)\n            return np.atleast_1d(arr).ravel()", 'C04.src-index'),
+    Mutant('srcidx-skip-first', CONN, "            for inds in src_inds_list:\n                arr = inds.indexed_val(arr)\n            return np.atleast_1d(arr).ravel()",
+           "            for inds in src_inds_list[1:]:\n                arr = inds.indexed_val(arr)\n            return np.atleast_1d(arr).ravel()", 'C04.src-index'),
     Mutant('srcidx-node-shape', CONN, "            root_meta = self.nodes[root]['attrs']\n            if root_meta.distributed:",
            "            root_meta = self.nodes[node]['attrs']\n            if root_meta.distributed:", 'C04.src-index'),
-    Mutant('srcidx-step-not-chained', CONN, "            for inds in src_inds_list:\n                arr = inds.indexed_val(arr)\n            return arr",
-           "            base = arr\n            for inds in src_inds_list:\n                arr = inds.indexed_val(base)\n            return arr", 'C04.src-index'),
+    Mutant('srcidx-step-not-chained', CONN, "            for inds in src_inds_list:\n                arr = inds.indexed_val(arr)\n            return np.atleast_1d(arr).ravel()",
+           "            base = arr\n            for inds in src_inds_list:\n                arr = inds.indexed_val(base)\n            return np.atleast_1d(arr).ravel()", 'C04.src-index'),
     Mutant('srcidx-as-array', CONN, "            return src_inds_list[0].shaped_array()", "            return src_inds_list[0].as_array()", 'C04.src-index'),
-    Mutant('srcidx-last-only', CONN, "        elif len(src_inds_list) == 1:\n            return src_inds_list[0].shaped_array()\n        else:",
-           "        elif len(src_inds_list) >= 1:\n            return src_inds_list[-1].shaped_array()\n        else:", 'C04.src-index'),
+    Mutant('srcidx-last-only', CONN, "        elif len(src_inds_list) == 1 and src_inds_list[0]._flat_src:\n            return src_inds_list[0].shaped_array()\n        else:",
+           "        elif len(src_inds_list) >= 1 and src_inds_list[-1]._flat_src:\n            return src_inds_list[-1].shaped_array()\n        else:", 'C04.src-index'),
     Mutant('srcidx-output-node', CONN, "        node = ('i', abs_in)\n        if node not in self:\n            raise ValueError(f\"Input '{abs_in}' not found.\")\n        src_inds_list = self.nodes[node]['attrs'].src_inds_list",
            "        node = ('i', abs_in)\n        if node not in self:\n            raise ValueError(f\"Input '{abs_in}' not found.\")\n        src_inds_list = self.nodes[self.get_root(node)]['attrs'].src_inds_list", 'C04.src-index'),
     # ---- chain
@@ -2649,8 +3054,8 @@ selftest(
     # ---- discrete
     Mutant('discrete-swapped-direction', GROUP, "                tgt_sys._discrete_inputs[tgt] = src_sys._discrete_outputs[src]",
            "                src_sys._discrete_outputs[src] = tgt_sys._discrete_inputs[tgt]", 'C04.discrete'),
-    Mutant('discrete-keyed-by-source', XFER, "            xfer = (src_sys, src_var, tgt_sys, tgt_var)\n            transfers[tgt_sys].append(xfer)\n\n        if group.comm.size > 1:",
-           "            xfer = (src_sys, src_var, tgt_sys, tgt_var)\n            transfers[src_sys].append(xfer)\n\n        if group.comm.size > 1:", 'C04.discrete'),
+    Mutant('discrete-keyed-by-source', XFER, "            xfer = (src_sys, src_var, tgt_sys, tgt_var)\n            transfers[tgt_sys].append(xfer)\n            if group.comm.size == 1:",
+           "            xfer = (src_sys, src_var, tgt_sys, tgt_var)\n            transfers[src_sys].append(xfer)\n            if group.comm.size == 1:", 'C04.discrete'),
     Mutant('discrete-tuple-order', GROUP, "            for src_sys_name, src, tgt_sys_name, tgt in self._discrete_transfers[key]:\n                tgt_sys = self._subsystems_allprocs[tgt_sys_name].system",
            "            for tgt_sys_name, tgt, src_sys_name, src in self._discrete_transfers[key]:\n                tgt_sys = self._subsystems_allprocs[tgt_sys_name].system", 'C04.discrete'),
     Twin('twin-order-rename', SOLVER, "        for subsys in system._relevance.filter(system._all_subsystem_iter()):\n            system._transfer('nonlinear', 'fwd', subsys.name)\n\n            if subsys._is_local:\n                try:\n                    subsys._solve_nonlinear()",
@@ -2813,25 +3218,43 @@ selftest(
     Mutant('api-promotion-direction', CONN, "        if io == 'input':\n            src, _ = self.get_node_attrs(group.pathname, prom_name, io[0])", "        if io == 'output':\n            src, _ = self.get_node_attrs(group.pathname, prom_name, io[0])", 'C04.api'),
     Twin('twin-api-positional', GROUP, "src_indices = indexer(src_indices, flat_src=flat_src_indices)", "src_indices = indexer(src_indices, None, flat_src_indices)"),
     Twin('twin-api-kwargs', GROUP, "prominfo = _PromotesInfo(src_indices, flat_src_indices, src_shape)", "prominfo = _PromotesInfo(src_shape=src_shape, src_indices=src_indices, flat=flat_src_indices)"),
-    # ---- accepted repair shapes for the four defects found on the tree of 2026-09 (must be silent) ...
-    Twin('fix-d1d2-guarded-shortcut', CONN, "        elif len(src_inds_list) == 1:\n            return src_inds_list[0].shaped_array()",
-         "        elif len(src_inds_list) == 1 and src_inds_list[0]._flat_src:\n            return src_inds_list[0].shaped_array()",
-         also=[(CONN, "                arr = inds.indexed_val(arr)\n            return arr", "                arr = inds.indexed_val(arr)\n            return np.atleast_1d(arr).ravel()")]),
-    Twin('fix-d1d2-no-shortcut', CONN, "        elif len(src_inds_list) == 1:\n            return src_inds_list[0].shaped_array()\n        else:", "        else:",
-         also=[(CONN, "                arr = inds.indexed_val(arr)\n            return arr", "                arr = inds.indexed_val(arr)\n            arr = arr.reshape(-1)\n            return arr")]),
-    Twin('fix-d1-shape-aware-indexers', INDEXER, "        return np.array([self._idx])",
-         "        if self._flat_src or self._src_shape is None or len(self._src_shape) == 1:\n            return np.array([self._idx])\n        return np.arange(shape_to_len(self._src_shape)).reshape(self._src_shape)[self._idx].ravel()",
-         also=[(INDEXER, "        if flat:\n            arr = self._arr.ravel()\n        else:\n            arr = self._arr\n        if copy:",
-                "        if not self._flat_src and self._src_shape is not None and len(self._src_shape) > 1:\n            arr = np.arange(shape_to_len(self._src_shape)).reshape(self._src_shape)[self._arr]\n            arr = arr.ravel() if flat else arr\n        elif flat:\n            arr = self._arr.ravel()\n        else:\n            arr = self._arr\n        if copy:"),
-               (CONN, "                arr = inds.indexed_val(arr)\n            return arr", "                arr = inds.indexed_val(arr)\n            return arr.ravel()")]),
-    Twin('fix-d2-consumer-flattens', XFER, "                src_indices = conn_graph.get_src_index_array(abs_in)", "                src_indices = conn_graph.get_src_index_array(abs_in)\n                if src_indices is not None:\n                    src_indices = np.atleast_1d(src_indices).ravel()",
-         also=[(CONN, "        elif len(src_inds_list) == 1:\n            return src_inds_list[0].shaped_array()\n        else:", "        else:")]),
-    Twin('fix-d3-serial-none', XFER, "            transfers[tgt_sys].append(xfer)\n\n        if group.comm.size > 1:",
-         "            transfers[tgt_sys].append(xfer)\n            if group.comm.size == 1:\n                transfers[None].append(xfer)\n\n        if group.comm.size > 1:"),
-    Twin('fix-d3-always-none', XFER, "            transfers[tgt_sys].append(xfer)\n\n        if group.comm.size > 1:",
+    # ---- other accepted shapes of the repaired constructs (must be silent)
+    Twin('twin-srcidx-no-shortcut', CONN, "        elif len(src_inds_list) == 1 and src_inds_list[0]._flat_src:\n            return src_inds_list[0].shaped_array()\n        else:", "        else:",
+         also=[(CONN, "                arr = inds.indexed_val(arr)\n            return np.atleast_1d(arr).ravel()", "                arr = inds.indexed_val(arr)\n            arr = arr.reshape(-1)\n            return arr")]),
+    Twin('twin-srcidx-len-guard', CONN, "        elif len(src_inds_list) == 1 and src_inds_list[0]._flat_src:", "        elif len(src_inds_list) == 1 and len(self.nodes[self.get_root(node)]['attrs'].global_shape) <= 1:"),
+    Twin('twin-srcidx-consumer-flattens', XFER, "                src_indices = conn_graph.get_src_index_array(abs_in)", "                src_indices = conn_graph.get_src_index_array(abs_in)\n                if src_indices is not None:\n                    src_indices = np.atleast_1d(src_indices).ravel()",
+         also=[(CONN, "            return np.atleast_1d(arr).ravel()", "            return arr")]),
+    Twin('twin-discrete-extend-after', XFER, "            transfers[tgt_sys].append(xfer)\n            if group.comm.size == 1:\n                # full transfer (sub=None) moves every discrete connection of this group\n                transfers[None].append(xfer)\n\n        if group.comm.size > 1:",
          "            transfers[tgt_sys].append(xfer)\n\n        if group.comm.size > 1:\n            pass\n        else:\n            for xfers in list(transfers.values()):\n                transfers[None].extend(xfers)\n\n        if group.comm.size > 1:"),
-    # ... and the defects re-introduced into the repaired text (inapplicable until the repair of that shape lands)
+    Twin('twin-si-nested', GROUP, "                        if not scalar_ref:\n                            ref = ref[src_indices]\n                        if not scalar_ref0:\n                            ref0 = ref0[src_indices]\n                        if scalar_ref:  # ref is scalar so ref0 must be an array\n                            ref = np.full(ref0.shape, ref)\n                        elif scalar_ref0:  # ref0 is scalar so ref must be an array\n                            ref0 = np.full(ref.shape, ref0)",
+         "                        if scalar_ref:\n                            ref0 = ref0[src_indices]\n                            ref = np.full(ref0.shape, ref)\n                        elif scalar_ref0:\n                            ref = ref[src_indices]\n                            ref0 = np.full(ref.shape, ref0)\n                        else:\n                            ref0 = ref0[src_indices]\n                            ref = ref[src_indices]"),
+    Twin('twin-si-index-shape', GROUP, "                            ref = np.full(ref0.shape, ref)", "                            ref = np.full(src_indices.shape, ref)"),
+    Twin('twin-si-no-fill', GROUP, "                        if scalar_ref:  # ref is scalar so ref0 must be an array\n                            ref = np.full(ref0.shape, ref)\n                        elif scalar_ref0:  # ref0 is scalar so ref must be an array\n                            ref0 = np.full(ref.shape, ref0)\n", ""),
+    Twin('twin-sn-reordered', INDEXER, "        elif (slc.start is not None and slc.start < 0) or slc.stop is None or slc.stop < 0:",
+         "        elif slc.stop is None or 0 > slc.stop or not (slc.start is None or slc.start >= 0):"),
+    Twin('twin-sn-resolve-more', INDEXER, "        elif (slc.start is not None and slc.start < 0) or slc.stop is None or slc.stop < 0:",
+         "        elif slc.start is not None or slc.stop is None or slc.stop < 0:"),
+    Twin('fix-d5-open-start-backwards', INDEXER, "        elif (slc.start is not None and slc.start < 0) or slc.stop is None or slc.stop < 0:",
+         "        elif (slc.start is not None and slc.start < 0) or slc.stop is None or slc.stop < 0 or \\\n                (slc.start is None and slc.step < 0):"),
+    # ---- the repaired defects re-introduced (pre-fix shapes) and the independently seeded changes
     Mutant('revert-d1-shortcut-guard', CONN, "elif len(src_inds_list) == 1 and src_inds_list[0]._flat_src:", "elif len(src_inds_list) == 1:", 'C04.src-index'),
     Mutant('revert-d2-ravel', CONN, "            return np.atleast_1d(arr).ravel()", "            return arr", 'C04.src-index'),
     Mutant('revert-d3-serial-none', XFER, "            if group.comm.size == 1:\n                # full transfer (sub=None) moves every discrete connection of this group\n                transfers[None].append(xfer)\n", "", 'C04.discrete'),
+    Mutant('revert-d3-mpi-only', XFER, "            if group.comm.size == 1:\n                # full transfer", "            if group.comm.size > 1:\n                # full transfer", 'C04.discrete'),
+    Mutant('revert-d4-fill-order', GROUP, "                        if not scalar_ref:\n                            ref = ref[src_indices]\n                        if not scalar_ref0:\n                            ref0 = ref0[src_indices]\n                        if scalar_ref:  # ref is scalar so ref0 must be an array\n                            ref = np.full(ref0.shape, ref)\n                        elif scalar_ref0:  # ref0 is scalar so ref must be an array\n                            ref0 = np.full(ref.shape, ref0)",
+           "                        if not scalar_ref:\n                            ref = ref[src_indices]\n                        else:  # ref is scalar so ref0 must be an array\n                            ref = np.full(ref0.shape, ref)\n                        if not scalar_ref0:\n                            ref0 = ref0[src_indices]\n                        else:  # ref0 is scalar so ref must be an array\n                            ref0 = np.full(ref.shape, ref0)", 'C04.scale-idx'),
+    Mutant('seed3-ref0-elif', GROUP, "                        if not scalar_ref0:\n                            ref0 = ref0[src_indices]", "                        elif not scalar_ref0:\n                            ref0 = ref0[src_indices]", 'C04.scale-idx'),
+    Mutant('si-ref-only-when-ref0-scalar', GROUP, "                        if not scalar_ref:\n                            ref = ref[src_indices]", "                        if not scalar_ref and scalar_ref0:\n                            ref = ref[src_indices]", 'C04.scale-idx'),
+    Mutant('si-ref0-unindexed', GROUP, "                        if not scalar_ref0:\n                            ref0 = ref0[src_indices]\n", "", 'C04.scale-idx'),
+    Mutant('si-different-index', GROUP, "                            ref0 = ref0[src_indices]", "                            ref0 = ref0[:len(src_indices)]", 'C04.scale-idx'),
+    Mutant('si-flag-swapped', GROUP, "                        if not scalar_ref0:\n                            ref0 = ref0[src_indices]", "                        if not scalar_ref:\n                            ref0 = ref0[src_indices]", 'C04.scale-idx'),
+    Mutant('si-list-of-source', GROUP, "                src_inds_list = meta_in['src_inds_list']", "                src_inds_list = src_node_meta.src_inds_list", 'C04.scale-idx'),
+    Mutant('si-ref-of-input', GROUP, "                src_meta = allprocs_meta_out[src]\n                ref = src_meta['ref']", "                src_meta = allprocs_meta_out[src]\n                ref = allprocs_meta_out[abs_in]['ref']", 'C04.scale-idx'),
+    Mutant('seed1-slice-neg-start-explicit-stop', INDEXER, "        elif (slc.start is not None and slc.start < 0) or slc.stop is None or slc.stop < 0:", "        elif slc.stop is None or slc.stop < 0:", 'C04.slice-norm'),
+    Mutant('sn-neg-stop-unresolved', INDEXER, "        elif (slc.start is not None and slc.start < 0) or slc.stop is None or slc.stop < 0:", "        elif (slc.start is not None and slc.start < 0) or slc.stop is None:", 'C04.slice-norm'),
+    Mutant('sn-and-instead-of-or', INDEXER, "        elif (slc.start is not None and slc.start < 0) or slc.stop is None or slc.stop < 0:", "        elif (slc.start is not None and slc.start < 0) and (slc.stop is None or slc.stop < 0):", 'C04.slice-norm'),
+    Mutant('sn-start-le', INDEXER, "        elif (slc.start is not None and slc.start < 0) or slc.stop is None or slc.stop < 0:", "        elif (slc.start is not None and slc.start > 0) or slc.stop is None or slc.stop < 0:", 'C04.slice-norm'),
+    Mutant('sn-backwards-case-widened', INDEXER, "        if slc.stop is None and slc.step < 0:  # special backwards indexing case\n            self._shaped_inst", "        if slc.stop is None or slc.step < 0:  # special backwards indexing case\n            self._shaped_inst", 'C04.slice-norm'),
+    Mutant('sn-as-array-special-dropped', INDEXER, "            if slc.stop is None and slc.step < 0:  # special case - neg step down to -1\n                return np.arange(self._src_shape[0], dtype=int)[slc]\n            else:\n                # use maxsize here since a shaped slice always has positive int start and stop\n                return np.arange(*slc.indices(sys.maxsize), dtype=int)",
+           "            return np.arange(*slc.indices(sys.maxsize), dtype=int)", 'C04.slice-norm'),
 )
